@@ -19,8 +19,16 @@
 (*  - gas is not modelled (ample gas is always supplied);                  *)
 (*  - account sequence numbers are managed by the harness, not modelled;   *)
 (*  - amounts of the second denomination are counted in units U;           *)
-(*  - staking, gov, ibc, group are quiescent; everything they hold is the  *)
-(*    aggregate `rest`.                                                    *)
+(*  - staking, ibc, group are quiescent; everything they hold is the       *)
+(*    aggregate `rest`.  Governance appears in one role only: a passed     *)
+(*    community-pool spend that pays the burn address inside EndBlock      *)
+(*    (GovSchedule / pending / Arrives);                                   *)
+(*  - mempool and gas-estimation traffic (CheckTx, ReCheckTx, Simulate) is *)
+(*    the action Noise: it changes nothing, which is the point;            *)
+(*  - the declared fee may hold two coins (FeeOf); the optional tip field  *)
+(*    of the envelope is carried by transactions and is inert.             *)
+(* Genesis.tla (which Props.tla extends) transcribes the three modules'    *)
+(* genesis export / validation / import.                                   *)
 (***************************************************************************)
 EXTENDS Integers, Sequences, FiniteSets, TLC
 
